@@ -61,3 +61,174 @@ package rel
 //@ func NewOffsetString(s, offset)
 //@   tags C10
 //@   assigns nothing
+
+//@ func (String).With(s; value)
+//@   tags C10
+//@   assigns fresh-only
+//@   requires validString(s)
+//@   ensures[C02] valid: !(value is StringCharTuple && value.(StringCharTuple).char < 0) ==> validSet(result)
+
+//@ func toUnionSetWithItem(s, v)
+//@   trusted
+//@   assigns fresh-only
+//@   ensures result != nil && validSet(result)
+//@   ensures forall x: Val :: mem(result, x) <==> (mem(s, x) || eq(x, v))
+
+// ---- Array (value_set_array.go) ---------------------------------------------------------------
+
+//@ func (Array).Count(a)
+//@   tags C10, C01
+//@   pure
+//@   requires[C02] validArray(a)
+//@   ensures[C01] result == cntNN(row(a.values), a.values.off, a.values.off + len(a.values))
+
+//@ func (Array).IsTrue(a)
+//@   tags C10
+//@   pure
+//@   ensures result == (a.count > 0)
+
+//@ func (Array).Values(a)
+//@   tags C10
+//@   pure
+//@   ensures result == a.values
+
+//@ func (Array).Shift(a; offset)
+//@   tags C10
+//@   pure
+//@   ensures[C05] result.values == a.values && result.count == a.count && result.offset == a.offset + offset
+
+//@ func (Array).clone(a)
+//@   tags C10
+//@   assigns fresh-only
+//@   ensures fresh(result.values) && len(result.values) == len(a.values) && result.values.off == 0 && result.offset == a.offset && result.count == a.count
+//@   ensures forall i in 0..len(a.values) :: result.values[i] == a.values[i]
+//@   ensures segcopyV(row(result.values), 0, row(a.values), a.values.off, len(a.values))
+
+//@ func (Array).Has(a; value)
+//@   tags C10
+//@   pure
+//@   requires[C02] validArray(a)
+//@   ensures[C01] den: result == memArray(a, value)
+
+//@ func (Array).withItem(a; index, item)
+//@   tags C10
+//@   assigns fresh-only
+//@   requires[C02] validArray(a)
+//@   requires item != nil
+//@   ensures[C02] valid: validSet(result)
+//@   ensures[C01] den: forall x: Val :: mem(result, x) <==> (memArray(a, x) || eq(x, mkval(rel.ArrayItemTuple, index, item)))
+
+//@ func (Array).Without(a; value)
+//@   tags C10
+//@   assigns fresh-only
+//@   requires[C02] validArray(a)
+//@   ensures[C02] valid: validSet(result)
+//@   ensures[C01] den: forall x: Val :: mem(result, x) <==> (memArray(a, x) && !eq(x, value))
+
+// ---- Number -----------------------------------------------------------------------------------
+
+//@ func NewNumber(n)
+//@   tags C10
+//@   pure
+//@   ensures same(result, n)
+
+//@ func (Number).Float64(n)
+//@   tags C10
+//@   pure
+//@   ensures same(result, n)
+
+// Int: (i, true) iff n is integral (and then i is that integer), else (0, false)
+//@ func (Number).Int(n)
+//@   tags C10
+//@   pure
+//@   ensures result.1 == (i2f(f2i(n)) == n)
+//@   ensures result.0 == (result.1 ? f2i(n) : 0)
+
+// ---- keyed access (C05): CallAll adds exactly the value paired with the key ---------------------
+
+//@ func (String).CallAll(s; ctx, arg, b)
+//@   tags C10
+//@   assigns fresh-only
+//@   modifies added
+//@   requires validString(s)
+//@   requires forall x: Val :: !added[x]
+//@   ensures result == nil
+//@   ensures[C05] call: forall x: Val :: added[x] <==> (old(added)[x] || (arg is Number && i2f(f2i(arg.(Number))) == arg.(Number)
+//@       && inStr(s, f2i(arg.(Number)), s.s[f2i(arg.(Number)) - s.offset]) && x == mkval(rel.Number, i2f(s.s[f2i(arg.(Number)) - s.offset]))))
+
+//@ func (Array).CallAll(a; ctx, arg, b)
+//@   tags C10
+//@   assigns fresh-only
+//@   modifies added
+//@   requires[C02] validArray(a)
+//@   requires forall x: Val :: !added[x]
+//@   ensures result == nil
+//@   ensures[C05] call: forall x: Val :: added[x] <==> (old(added)[x] || (arg is Number && i2f(f2i(arg.(Number))) == arg.(Number)
+//@       && a.offset <= f2i(arg.(Number)) && f2i(arg.(Number)) < a.offset + len(a.values) && a.values[f2i(arg.(Number)) - a.offset] != nil
+//@       && x == a.values[f2i(arg.(Number)) - a.offset]))
+
+// ---- Bytes (value_set_bytes.go) ---------------------------------------------------------------
+
+//@ func NewBytesByteTuple(at, byteval)
+//@   tags C10
+//@   pure
+//@   ensures result.at == at && result.byteval == byteval
+
+//@ func isBytesTuple(v)
+//@   trusted
+//@   pure
+//@   ensures result.2 == (v is BytesByteTuple)
+//@   ensures result.2 ==> result.0 == v.(BytesByteTuple).at && result.1 == v.(BytesByteTuple).byteval
+
+//@ func (Bytes).index(b; pos)
+//@   tags C10
+//@   pure
+//@   ensures result == ((0 <= pos - b.offset && pos - b.offset <= len(b.b)) ? pos - b.offset : -1)
+
+//@ func (Bytes).Count(b)
+//@   tags C10, C01
+//@   pure
+//@   ensures[C01] result == len(b.b)
+
+//@ func (Bytes).Has(b; value)
+//@   tags C10
+//@   pure
+//@   requires[C02] validBytes(b)
+//@   ensures[C01] den: result == memBytes(b, value)
+
+//@ func (Bytes).with(b; index, byt)
+//@   tags C10
+//@   assigns fresh-only
+//@   requires[C02] validBytes(b)
+//@   ensures[C02] valid: validSet(result)
+//@   ensures[C01] den: forall x: Val :: mem(result, x) <==> (memBytes(b, x) || eq(x, mkval(rel.BytesByteTuple, index, byt)))
+
+//@ func (Bytes).With(b; value)
+//@   tags C10
+//@   assigns fresh-only
+//@   requires[C02] validBytes(b)
+//@   ensures[C02] valid: validSet(result)
+//@   ensures[C01] den: forall x: Val :: mem(result, x) <==> (memBytes(b, x) || eq(x, value))
+
+//@ func (Bytes).Without(b; value)
+//@   tags C10
+//@   assigns fresh-only
+//@   requires[C02] validBytes(b)
+//@   ensures[C02] valid: validSet(result)
+//@   ensures[C01] den: forall x: Val :: mem(result, x) <==> (memBytes(b, x) && !eq(x, value))
+
+//@ interface Set.Without(s; v)
+//@   assigns fresh-only
+//@   ensures result != nil && validSet(result)
+//@   ensures forall x: Val :: mem(result, x) <==> (mem(s, x) && !eq(x, v))
+
+//@ func (Bytes).CallAll(b; ctx, arg, sb)
+//@   tags C10
+//@   assigns fresh-only
+//@   modifies added
+//@   requires[C02] validBytes(b)
+//@   requires forall x: Val :: !added[x]
+//@   ensures result == nil
+//@   ensures[C05] call: forall x: Val :: added[x] <==> (old(added)[x] || (arg is Number && i2f(f2i(arg.(Number))) == arg.(Number)
+//@       && b.offset <= f2i(arg.(Number)) && f2i(arg.(Number)) < b.offset + len(b.b)
+//@       && x == mkval(rel.Number, i2f(b.b[f2i(arg.(Number)) - b.offset]))))
